@@ -101,23 +101,51 @@ func buildC07(tier string) *core.Plan {
 		markers = append(markers, s)
 	}
 	markers = append(markers, c07MapMarkers()...)
+	// cases are addressed lazily: (base, marker, injection point) from prefix sums, so that a
+	// worker never holds the millions of injected documents of the thorough tier in memory
 	type cs struct {
 		doc    any
 		marker any
 	}
-	var cases []cs
-	for _, b := range bases {
-		for _, m := range markers {
-			for _, d := range c07InjectAll(b, m) {
-				cases = append(cases, cs{d, m})
+	nStrM := len(c07StrMarkers)
+	nMapM := len(markers) - nStrM
+	prefix := make([]int64, len(bases)+1)
+	perStr := make([]int, len(bases))
+	perMap := make([]int, len(bases))
+	for bi, b := range bases {
+		perStr[bi] = len(c07InjectAll(b, "$required"))
+		perMap[bi] = len(c07InjectAll(b, map[string]any{"$x": 1}))
+		prefix[bi+1] = prefix[bi] + int64(nStrM*perStr[bi]+nMapM*perMap[bi])
+	}
+	caseAt := func(i int64) cs {
+		lo, hi := 0, len(bases)
+		for lo+1 < hi {
+			mid := (lo + hi) / 2
+			if prefix[mid] <= i {
+				lo = mid
+			} else {
+				hi = mid
 			}
 		}
+		bi := lo
+		j := int(i - prefix[bi])
+		var m any
+		var k int
+		if j < nStrM*perStr[bi] {
+			m, k = markers[j/perStr[bi]], j%perStr[bi]
+		} else {
+			j -= nStrM * perStr[bi]
+			m, k = markers[nStrM+j/perMap[bi]], j%perMap[bi]
+		}
+		return cs{c07InjectAll(bases[bi], m)[k], m}
 	}
+	nCases := prefix[len(bases)]
 
-	inject := core.Space{Name: "marker-injection-contexts", N: int64(len(cases)),
-		Desc: func(i int64) any { return map[string]any{"doc": cases[i].doc, "marker": cases[i].marker} },
+	inject := core.Space{Name: "marker-injection-contexts", N: nCases,
+		Desc: func(i int64) any { x := caseAt(i); return map[string]any{"doc": x.doc, "marker": x.marker} },
 		Run: func(c *core.Ctx, i int64) {
-			d, m := cases[i].doc, cases[i].marker
+			x := caseAt(i)
+			d, m := x.doc, x.marker
 			w := core.Canon(d)
 			c.Nontrivial()
 			// plain
@@ -326,7 +354,7 @@ func buildC07(tier string) *core.Plan {
 			"each evaluated plain, under $output: false, re-selected by $output: true below a hidden parent, inside $encode: json and as a lower layer; every lower layer with $required at any positions x every subset overridden",
 		Assumptions: []string{"invariant: a successful output contains no key or string equal to $required or matching ^\\$\\p{Ll} (inputs contain no $$)",
 			"definite expectations only where the statement fixes them: visible $required not overridden => error; overridden by a non-null value => success with that value; hidden marker => if success then absent"},
-		Bounds: map[string]any{"base_nodes": nb, "bases": len(bases), "markers": len(markers), "injected_docs": len(cases), "required_lowers": len(reqBases)},
+		Bounds: map[string]any{"base_nodes": nb, "bases": len(bases), "markers": len(markers), "injected_docs": nCases, "required_lowers": len(reqBases)},
 	}
 }
 
